@@ -55,6 +55,22 @@ func implSeg(k, i, e uint64, idx int) string {
 	eoi, _ := common.Recover(func() string { return fmt.Sprint(s.EndsOnInterval(idx)) })
 	return fmt.Sprintf("first=%d last=%d count=%d range=%s eoi=%s", s.FirstIndex(), s.LastIndex(), s.Count(), showRange(s.Range(idx)), eoi)
 }
+// the walk every consumer of a Segmenter does (stage.NewStages, NextJob, the squasher): Range(idx) for
+// idx = FirstIndex() .. LastIndex(); answer = the ranges and the blocks they list, in order
+func implSegs(k, i, e uint64) string {
+	s := block.NewSegmenter(k, i, e)
+	var rs []*block.Range
+	var blocks []string
+	for idx := s.FirstIndex(); idx <= s.LastIndex(); idx++ {
+		if r := s.Range(idx); r != nil {
+			rs = append(rs, r)
+			for b := r.StartBlock; b < r.ExclusiveEndBlock; b++ {
+				blocks = append(blocks, fmt.Sprint(b))
+			}
+		}
+	}
+	return showRanges(rs) + " blocks=" + strings.Join(blocks, ",")
+}
 func implIdx(k, b uint64) string {
 	s := block.NewSegmenter(k, 0, 0)
 	return fmt.Sprintf("start=%d end=%d", s.IndexForStartBlock(b), s.IndexForEndBlock(b))
@@ -67,6 +83,8 @@ func runLine(line string) string {
 		return implSeg(common.Atou(w[1]), common.Atou(w[2]), common.Atou(w[3]), common.Atoi(w[4]))
 	case "IDX":
 		return implIdx(common.Atou(w[1]), common.Atou(w[2]))
+	case "SEGS":
+		return implSegs(common.Atou(w[1]), common.Atou(w[2]), common.Atou(w[3]))
 	case "SPLIT":
 		return showRanges(block.NewRange(common.Atou(w[1]), common.Atou(w[2])).Split(common.Atou(w[3])))
 	case "MERGED":
@@ -224,7 +242,7 @@ func emit(line string, nontrivial bool) {
 func main() {
 	o := common.ParseFlags()
 	out = common.NewOut(o.Out)
-	out.Rule = "SEG: exhaustive (interval 1..16, init 0..64, end init+1..96, every index first-2..last+2) plus degenerate end<=init; SPLIT exhaustive (start 0..40, len 1..40, chunk 1..12); MERGED/BUCKETS: exhaustive small point sets + seeded random adjacent/non-adjacent lists; non-trivial = the queried index has a segment / the split has >1 chunk / the list has an adjacent pair; distinct by case line"
+	out.Rule = "SEG: exhaustive (interval 1..16, init 0..64, end init+1..96, every index first-2..last+2) plus degenerate end<=init; SEGS (the whole walk first..last and the blocks it lists, the definitions of the C13∘C02 / C13∘C01 composition theorems): every 7th (init,end) of that grid and all ranges of <=3 blocks; SPLIT exhaustive (start 0..40, len 1..40, chunk 1..12); MERGED/BUCKETS: exhaustive small point sets + seeded random adjacent/non-adjacent lists; non-trivial = the queried index has a segment / the split has >1 chunk / the list has an adjacent pair; distinct by case line"
 	defer out.Finish()
 
 	if lines := o.ReplayLines(); lines != nil {
@@ -256,6 +274,9 @@ func main() {
 			for e := i + 1; e <= maxEnd; e++ {
 				oracleSegmenter(k, i, e)
 				s := block.NewSegmenter(k, i, e)
+				if (i+e)%7 == 0 || e-i <= 3 {
+					emit(fmt.Sprintf("SEGS %d %d %d", k, i, e), s.LastIndex() > s.FirstIndex())
+				}
 				lo := s.FirstIndex() - 2
 				if lo < 0 {
 					lo = 0
